@@ -130,6 +130,10 @@ class CallMixin(object):
       r = ops.new_set(st, pred, Ty('set', (elem_type(src) if src is not None else ANY,)), 'WeakSet')
       yield st, r
       return
+    if self.mode == 'event':
+      # event mode: a call the sidecar does not model is an observable action labelled by its path
+      yield from self.call_opaque(None, args, kw, st, star, dstar, kind='call', label=path)
+      return
     raise Unsupported('call to undeclared function %s' % path)
 
   def make_exception(self, cls, args, st):
@@ -514,9 +518,19 @@ class CallMixin(object):
     if isinstance(base, VGlobal):
       yield from self.call_global(base.path + '.' + meth, args, kw, st, star, dstar)
       return
+    if isinstance(base, VSuper):
+      ci = self.world.classes.get(self.world.class_for(self.cur_mod.name, base.cls)) or self.world.classes.get(base.cls)
+      if ci is None or not ci.bases:
+        raise Unsupported('super() of undeclared class %s' % base.cls)
+      q = self.world.find_method(ci.bases[0], meth)
+      if q is None:
+        raise Unsupported('no base method %s above %s' % (meth, base.cls))
+      yield from self.call_qualified(q, [base.self_val] + list(args), kw, st, self_val=base.self_val)
+      return
     if isinstance(base, VBuiltin):
-      if base.name == 'super':
-        raise Unsupported('super')
+      if self.mode == 'event':
+        yield from self.call_opaque(VBound(base, meth), args, kw, st, star, dstar)
+        return
       raise Unsupported('method of builtin %s' % base.name)
     if isinstance(base, VStr):
       yield st, self.str_method(base, meth, args, st)
@@ -693,6 +707,29 @@ class CallMixin(object):
           'item', lambda x, i: z3.If(x == l.t, z3.If(i < k, olditem(x, i), z3.If(i == k, u, olditem(x, i - 1))),
                                      olditem(x, i)))
       yield st, VNone
+    elif meth == 'remove':
+      # removes the FIRST occurrence (ValueError when absent)
+      u = to_u(args[0], st)
+      oldlen, olditem = h.get('len'), h.get('item')
+      n0 = oldlen(l.t)
+      k = fresh('rmidx', I)
+      j = z3.Const(fresh_name('rj'), I)
+      for st2, ok in self.fork(st, h.lmem(l.t, u)):
+        if ok:
+          st2.assume(z3.And(k >= 0, k < n0, olditem(l.t, k) == u))
+          st2.assume(ForAllT([j], z3.Implies(z3.And(j >= 0, j < k), olditem(l.t, j) != u)))
+          h2 = st2.heap
+          oldl = h2.get('lmem')
+          P = ufn(fresh_name('lmemrm'), U, B)
+          e = z3.Const(fresh_name('re'), U)
+          st2.assume(ForAllT([e], z3.Implies(P(e), oldl(l.t, e))))
+          st2.assume(ForAllT([e], z3.Implies(z3.And(oldl(l.t, e), e != u), P(e))))
+          st2.heap = h2.with_('len', upd1(oldlen, l.t, n0 - 1)).with_(
+              'item', lambda x, i: z3.If(z3.And(x == l.t, i >= k), olditem(x, i + 1), olditem(x, i))).with_(
+              'lmem', upd2(oldl, l.t, lambda x: P(x)))
+          yield st2, VNone
+        else:
+          yield st2, Exc('ValueError')
     elif meth == 'index' or meth == 'count':
       raise Unsupported('list.%s' % meth)
     else:
